@@ -66,6 +66,31 @@ pub fn dispatch(op: &str, args: &[&str]) -> Option<Res> {
                 let (lb, ub) = n.log2_bounds();
                 Ok(format!("{} {}", out(lb), out(ub)))
             }
+            "s32.dest" => {
+                // s32.dest d:<B> <n>: Repr::<B>::new(n, 0).digits_lb() / .digits_ub() (float/src/repr.rs) - the f32 digit estimates
+                // themselves, against digitsLbReal / digitsUbReal evaluated by the soft-float replica (Driver/FloatX.lean)
+                let b = p_usize(arg(args, 0)?)?;
+                let n = dashu_int::IBig::from(p_ubig(arg(args, 1)?)?);
+                macro_rules! est {
+                    ($B:literal) => {{
+                        let r = dashu_float::Repr::<$B>::new(n, 0);
+                        (r.digits_lb(), r.digits_ub())
+                    }};
+                }
+                let (lb, ub) = match b {
+                    2 => est!(2),
+                    3 => est!(3),
+                    7 => est!(7),
+                    10 => est!(10),
+                    16 => est!(16),
+                    36 => est!(36),
+                    1000 => est!(1000),
+                    4294967296 => est!(4294967296),
+                    18446744073709551615 => est!(18446744073709551615),
+                    _ => return Err("bad-arg base".into()),
+                };
+                Ok(format!("d:{} d:{}", lb, ub))
+            }
             "s32.sweep" => {
                 // s32.sweep d:<lo> d:<hi>: libm's log2f on EVERY integer lo <= m < hi (1 <= lo, hi <= 2^24 + 1) against a rigorous
                 // integer-arithmetic enclosure of log2 m (40 fractional bits by interval squaring): counts the m where
